@@ -485,7 +485,21 @@ func ruleRec(c *Ctx) {
 					}
 					chain := p.ownerChain(f)
 					if len(chain) < 2 || !inSCC[chain[1]] {
-						extrasOK = false
+						// a helper that is new since the reference tree and is called from a member of the cycle (it may
+						// have further callers outside: a parametrised helper merged from two loops)
+						fromSCC := false
+						if !p.onReferenceTree(TopLevel(f)) {
+							if node := p.CG.Nodes[TopLevel(f)]; node != nil {
+								for _, e := range node.In {
+									if e.Caller != nil && e.Caller.Func != nil && e.Site != nil && e.Site.Common().StaticCallee() == TopLevel(f) && inSCC[fnName(TopLevel(e.Caller.Func))] {
+										fromSCC = true
+									}
+								}
+							}
+						}
+						if !fromSCC {
+							extrasOK = false
+						}
 					}
 				}
 				if extrasOK {
